@@ -764,6 +764,7 @@ def check_consumers(facts, res):
         res.floor("S6", "io::Read / io::Write calls in the crate (directory backend compiled in)", n6, 4)
     bs = backends(facts)
     leaf = [b for b in bs if b.kind == "leaf"]
+    from ..common import pass_anchors, bypassing_returns
     # S6b: no length-limiting adaptor between the stored bytes and the value handed back: `Read::take(n)` ends the stream after n bytes
     # without an error, so a value longer than the limit comes back as a prefix of what was written
     for b in bs:
@@ -775,10 +776,25 @@ def check_consumers(facts, res):
                         res.violation("S6", "%s|read-through-truncating-adaptor:take" % b.name(),
                                       "%s reads the stored value through io::Read::take: a value longer than the limit is silently cut, read returns a "
                                       "prefix of the first write" % body.path, body.loc(t.line))
+    # S3d: a wrapper answers a read with what its delegate returned (decoded), never from state of its own: every successful return of
+    # a wrapper's read_object passes through its delegation to the backend's read_object. A wrapper-level cache filled by write_object
+    # holds the bytes of writes the backend ignored (the key existed): the read returns the second write.
+    for b in [x for x in bs if x.kind == "wrapper"]:
+        rb_ = b.methods.get("read_object")
+        if rb_ is None:
+            continue
+        anchors = pass_anchors(facts, rb_, lambda t: t.callee is not None and t.callee.trait == ADAPTER_TRAIT and t.callee.name == "read_object", depth=2)
+        if not anchors:
+            continue        # reported by S3 (delegates-to)
+        byp, oks = bypassing_returns(rb_, {min(anchors): anchors[min(anchors)]})
+        res.instance("S3", "%s::read_object: every successful return passes through the backend's read_object: %s" % (b.name(), not byp), rb_.loc())
+        if byp:
+            res.violation("S3", "%s|read-answered-without-the-backend" % b.name(),
+                          "%s::read_object can return Ok without having asked the backend (a cache or other state of the wrapper): what it returns "
+                          "need not be the bytes of the first write to that key" % b.name(), rb_.loc())
     # S2c: a persistent leaf lists what the store holds *now*: every successful return of the directory backend's list_objects passes
     # through a read of the storage directory made by this very call (no listing served from a per-handle cache - another handle or a
     # file synchroniser may have added items that change nothing the cache is validated by)
-    from ..common import pass_anchors, bypassing_returns
     for b in leaf:
         lb = b.methods.get("list_objects")
         if lb is None:
